@@ -10,10 +10,11 @@ import coqlit as L
 ID = "C08"
 COQ_PROPERTY_FILE = "Properties/C08.v"
 COQ_DEPS = ["Common/ListX.v", "Common/ObsHash.v", "Generated/Tables.v", "Model/LegacyGrid.v", "Proofs/LegacyGridProofs.v",
-            "Proofs/LegacyGridSim.v", "Proofs/LegacyGridRefine.v", "Proofs/LegacyGridBridge.v"]
-COQ_IMPORTS = "From Mesa Require Import Model.LegacyGrid."
-COQ_CASE_TYPE = "case"
-COQ_RUN = "run_case"
+            "Proofs/LegacyGridSim.v", "Proofs/LegacyGridRefine.v", "Proofs/LegacyGridBridge.v", "Proofs/LegacyGridForms.v",
+            "Model/NetGrid.v", "Proofs/NetGridProofs.v"]
+COQ_IMPORTS = "From Mesa Require Import Model.LegacyGrid Model.NetGrid."
+COQ_CASE_TYPE = "anycase"
+COQ_RUN = "run_any"
 TABLE_CONSTRUCTS = ["mask_single_place", "mask_single_remove", "mask_multi_place", "mask_multi_remove",
                     # code-level T1 (harness/tables/legacy_space_code.py; gen_out_of_bounds comes from legacy_nbhd_code.py)
                     "grid_out_of_bounds_code", "grid_torus_adj_code", "grid_distance_squared_code", "grid_is_cell_empty_code",
@@ -55,8 +56,9 @@ ASSUMPTIONS = [
     "the float cutoff of move_to_empty is not modelled: which branch ran is an input, the theorems hold for both",
 ]
 CLASSES = ["SingleGrid", "MultiGrid", "HexSingleGrid", "HexMultiGrid"]
-E_OOB, E_CELL, E_NOEMPTY, E_NOTON, E_BADSEL, E_NOPOS = 1, 2, 3, 4, 5, 6
+E_OOB, E_CELL, E_NOEMPTY, E_NOTON, E_BADSEL, E_NOPOS, E_KEY, E_INDEX = 1, 2, 3, 4, 5, 6, 8, 9
 MUTATORS = ("place", "remove", "move", "swap", "move_to_empty", "move_one_of")
+FORM_KINDS = ("col", "ilist", "slice_y", "slice_x", "slice_xy", "cell_list")
 SITE = {"place": "place_agent", "remove": "remove_agent", "move": "move_agent", "swap": "swap_pos",
         "move_to_empty": "move_to_empty", "move_one_of": "move_agent_to_one_of"}
 
@@ -80,7 +82,7 @@ def _rand_target(rng, w, h, posn, a):
     return [rng.choice([-1, w]), rng.randrange(h)] if rng.random() < 0.5 else [rng.randrange(w), rng.choice([-1, h])]
 
 
-def _gen_history(rng, cls, w, h, torus, n, length, mode):
+def _gen_history(rng, cls, w, h, torus, n, length, mode, nlayers=0):
     """mode: 'nobuild' (never reads empties), 'buildfirst', 'mixed'"""
     single = "Single" in cls
     posn = {a: None for a in range(1, n + 1)}   # approximate shadow (exact until a random mover runs)
@@ -143,11 +145,40 @@ def _gen_history(rng, cls, w, h, torus, n, length, mode):
                 sel = "closest"
             ops.append(["move_one_of", a, cells, sel, he])
         else:
-            kinds = ["mask", "is_empty", "index", "index", "iter", "coord_iter", "agents"]
+            kinds = ["mask", "is_empty", "index", "index", "iter", "coord_iter", "agents",
+                     "col", "ilist", "slice_y", "slice_x", "slice_xy", "cell_list", "cell_list"]
             if mode != "nobuild":
                 kinds += ["empties", "empties", "exists"]
+            if nlayers:
+                kinds += ["lset", "lset", "lget", "lfill"]
             kd = rng.choice(kinds)
-            if kd == "is_empty":
+
+            def bound(nn):
+                return rng.choice([None, None, rng.randint(-nn - 2, nn + 2)])
+            if kd == "col":
+                ops.append([kd, rng.randint(-w - 1, w)])
+            elif kd == "ilist":
+                ops.append([kd, [_rand_target(rng, w, h, posn, 0) for _ in range(rng.randint(1, 4))]])
+            elif kd == "slice_y":
+                ops.append([kd, _rand_target(rng, w, h, posn, 0)[0], bound(h), bound(h)])
+            elif kd == "slice_x":
+                ops.append([kd, bound(w), bound(w), _rand_target(rng, w, h, posn, 0)[1]])
+            elif kd == "slice_xy":
+                ops.append([kd, bound(w), bound(w), bound(h), bound(h)])
+            elif kd == "cell_list":
+                single1 = rng.random() < 0.35
+                cl = [[rng.randrange(w), rng.randrange(h)] for _ in range(1 if single1 else rng.randint(0, 4))]
+                if placed and rng.random() < 0.6:
+                    cl[:1] = [list(posn[rng.choice(placed)])]
+                ops.append([kd, cl, single1, rng.choice(["get", "iter"])])
+            elif kd == "lset":
+                t2 = [rng.randrange(w), rng.randrange(h)] if rng.random() < 0.9 else _rand_target(rng, w, h, posn, 0)
+                ops.append([kd, rng.randrange(nlayers), t2[0], t2[1], rng.randint(-5, 9)])
+            elif kd == "lfill":
+                ops.append([kd, rng.randrange(nlayers), rng.randint(-5, 9)])
+            elif kd == "lget":
+                ops.append([kd, rng.randrange(nlayers), rng.randrange(w), rng.randrange(h)])
+            elif kd == "is_empty":
                 ops.append([kd, rng.randrange(w), rng.randrange(h)])
             elif kd == "index":
                 t = _rand_target(rng, w, h, posn, 0)
@@ -158,7 +189,7 @@ def _gen_history(rng, cls, w, h, torus, n, length, mode):
 
 
 def _mk(cls, w, h, torus, layers, n, ops, rseed=0):
-    return {"cls": cls, "w": w, "h": h, "torus": bool(torus), "layers": bool(layers), "n": n, "rseed": rseed, "ops": ops}
+    return {"cls": cls, "w": w, "h": h, "torus": bool(torus), "layers": int(layers), "n": n, "rseed": rseed, "ops": ops}
 
 
 def _fixed_cases():
@@ -191,6 +222,18 @@ def _fixed_cases():
                 ["move_one_of", 1, [[-11, 3], [3, 9], [1, 2]], "closest", None],
                 ["move_one_of", 2, [[2, 3], [2, 1], [3, 2], [1, 2]], "closest", None],
                 ["move_one_of", 2, [[0, -1], [5, 5]], "random", "error"]]))
+        # every indexing form, on a bounded and on a toroidal grid, with two layers written in between
+        for torus in (False, True):
+            out.append(_mk(cls, 3, 2, torus, 2, 3, [
+                ["place", 1, 0, 1], ["place", 2, 2, 0], ["place", 3, 2, 0], ["lset", 0, 2, 0, 7], ["lget", 0, 2, 0], ["lget", 1, 2, 0],
+                ["col", 0], ["col", 2], ["col", -1], ["col", -3], ["col", 3], ["col", -4],
+                ["ilist", [[2, 0], [0, 1]]], ["ilist", [[5, 2]]], ["ilist", [[0, 0], [-1, -1], [3, 0]]],
+                ["slice_y", 2, None, None], ["slice_y", 5, None, None], ["slice_y", 0, 1, None], ["slice_y", 0, -1, 5], ["slice_y", 2, None, -1],
+                ["slice_x", None, None, 0], ["slice_x", None, None, 2], ["slice_x", 1, None, 1], ["slice_x", -2, -1, 0], ["slice_x", 2, 1, 0],
+                ["slice_xy", None, None, None, None], ["slice_xy", 1, None, None, 1], ["slice_xy", -1, None, -5, 9],
+                ["cell_list", [[2, 0]], True, "get"], ["cell_list", [[2, 0]], True, "iter"], ["cell_list", [[0, 1], [2, 0], [1, 1]], False, "get"],
+                ["cell_list", [[0, 1], [2, 0]], False, "iter"], ["cell_list", [], False, "get"],
+                ["lfill", 1, 4], ["move", 2, 0, 0], ["lget", 1, 1, 1], ["remove", 3], ["lset", 1, 0, 0, -2], ["mask"], ["coord_iter"]]))
         # rejection-sampling branch of move_to_empty (needs > 31.5 empty cells of 36)
         out.append(_mk(cls, 6, 6, False, False, 2, [["place", 1, 2, 3], ["move_to_empty", 1], ["place", 2, 0, 0], ["move_to_empty", 2],
                                                     ["move_to_empty", 1], ["mask"]], rseed=3))
@@ -212,7 +255,7 @@ def gen_cases(rng, tier):
         else:
             w, h = 6, 6
         torus = rng.random() < 0.5
-        layers = rng.random() < 0.4
+        layers = rng.choice([0, 0, 0, 1, 1, 2])
         if (w, h) == (6, 6):
             nag = rng.randint(1, 3)
             length = rng.randint(4, 10)
@@ -221,8 +264,13 @@ def gen_cases(rng, tier):
             nag = rng.randint(1, min(7, cap + 2)) if "Single" in cls else rng.randint(1, 6)
             length = rng.randint(6, 35)
         mode = rng.choice(["nobuild", "nobuild", "buildfirst", "mixed", "mixed", "mixed"])
-        ops = _gen_history(rng, cls, w, h, torus, nag, length, mode)
+        ops = _gen_history(rng, cls, w, h, torus, nag, length, mode, nlayers=layers)
         cases.append(_mk(cls, w, h, torus, layers, nag, ops, rseed=rng.randrange(1 << 30)))
+    cases.append({"cls": "NetworkGrid", "nodes": [3, 0, 7], "edges": [[0, 3]], "n": 3, "ops": [
+        ["place", 1, 0], ["place", 2, 0], ["place", 3, 9], ["is_empty", 0], ["is_empty", 7], ["move", 1, 7], ["cell_list", [7, 0, 7]],
+        ["all"], ["agents"], ["move", 2, 11], ["all"], ["remove", 1], ["remove", 1], ["place", 2, 3], ["cell_list", []], ["agents"]]})
+    for _ in range(120 if tier == "quick" else 1500):
+        cases.append(_gen_net(rng))
     return cases
 
 
@@ -282,6 +330,10 @@ def _kind_of(e):
         return E_BADSEL
     if isinstance(e, ValueError) and "No positions given" in m:
         return E_NOPOS
+    if isinstance(e, IndexError):
+        return E_INDEX
+    if isinstance(e, KeyError):
+        return E_KEY
     return 99
 
 
@@ -305,7 +357,166 @@ def _axis(torus, n, d):
     return d
 
 
+def _run_net(case):
+    """NetworkGrid: place / move / remove / is_cell_empty / get_cell_list_contents / get_all_cell_contents / agents"""
+    import mesa
+    import networkx as nx
+    from mesa.space import NetworkGrid
+
+    nodes, n = list(case["nodes"]), case["n"]
+    G = nx.Graph()
+    G.add_nodes_from(nodes)
+    G.add_edges_from([tuple(e) for e in case.get("edges", [])])
+    with warnings.catch_warnings():
+        warnings.simplefilter("ignore")
+        model = mesa.Model(seed=1)
+        g = NetworkGrid(G)
+        agents = {}
+        for aid in range(1, n + 1):
+            a = mesa.Agent(model)
+            a._verif_id = aid
+            agents[aid] = a
+    name = "NetworkGrid"
+
+    def snapshot():
+        return ({aid: a.pos for aid, a in agents.items()}, {m: [x._verif_id for x in G.nodes[m]["agent"]] for m in nodes})
+
+    def obs_state(s):
+        o = [(-1 if s[0][aid] is None else int(s[0][aid])) for aid in range(1, n + 1)] + [-7]
+        for m in nodes:
+            o += _obs_cell(s[1][m])
+        return o
+
+    shadow = {aid: None for aid in agents}
+    obs, failures = [], []
+
+    def fail(key, i, what):
+        failures.append({"key": key, "op": i, "what": f"NetworkGrid(nodes {nodes}): {what}"})
+
+    for i, op in enumerate(case["ops"]):
+        kind = op[0]
+        before = snapshot()
+        skip = False
+        if kind == "place":
+            skip = op[1] not in agents or agents[op[1]].pos is not None
+        elif kind in ("remove", "move"):
+            skip = op[1] not in agents or agents[op[1]].pos is None
+        elif kind == "is_empty":
+            skip = op[1] not in nodes
+        elif kind == "cell_list":
+            skip = not all(m in nodes for m in op[1])
+        if skip:
+            obs.append([-2, -8] + obs_state(before))
+            continue
+        res, exc = None, None
+        try:
+            with warnings.catch_warnings():
+                warnings.simplefilter("ignore")
+                if kind == "place":
+                    g.place_agent(agents[op[1]], op[2])
+                    res = []
+                elif kind == "remove":
+                    g.remove_agent(agents[op[1]])
+                    res = []
+                elif kind == "move":
+                    g.move_agent(agents[op[1]], op[2])
+                    res = []
+                elif kind == "is_empty":
+                    res = [1 if g.is_cell_empty(op[1]) else 0]
+                elif kind in ("cell_list", "all", "agents"):
+                    got = g.get_cell_list_contents(list(op[1])) if kind == "cell_list" else g.get_all_cell_contents() if kind == "all" else list(g.agents)
+                    ids = [a._verif_id for a in got]
+                    res = [1 if len(set(ids)) != len(ids) else 0] + sorted(ids)
+                else:
+                    raise ValueError(f"unknown op {kind}")
+        except Exception as e:  # noqa: BLE001
+            exc = e
+        after = snapshot()
+        ekind = _kind_of(exc) if exc is not None else None
+        obs.append(([0] + res if exc is None else [-1, ekind]) + [-8] + obs_state(after))
+        # ---- oracle
+        site = {"place": "place_agent", "remove": "remove_agent", "move": "move_agent"}.get(kind, kind)
+        expect_reject = None
+        if kind == "place":
+            if op[2] not in nodes:
+                expect_reject = {E_KEY}
+            elif exc is None:
+                shadow[op[1]] = op[2]
+        elif kind == "remove" and exc is None:
+            shadow[op[1]] = None
+        elif kind == "move":
+            if op[2] not in nodes:
+                expect_reject = {E_KEY}
+            elif exc is None:
+                shadow[op[1]] = op[2]
+        if expect_reject is not None and exc is None:
+            fail(f"C08/{name}/{site}/unknown-node-accepted", i, f"{op} was not rejected although node {op[2]} does not exist")
+        if exc is not None:
+            if expect_reject is None or ekind not in expect_reject:
+                fail(f"C08/{name}/{site}/unexpected-exception", i, f"{op} raised {type(exc).__name__}: {exc}")
+            if kind in ("place", "remove", "move") and after != before:
+                failures.append({"key": f"C18/legacy-grid/networkgrid_{site}", "op": i,
+                                 "what": f"NetworkGrid(nodes {nodes}): {site}{tuple(op[1:])} raised {type(exc).__name__}({exc}) but changed the state: "
+                                         f"pos before {before[0]}, after {after[0]}"})
+            for aid in shadow:
+                shadow[aid] = after[0][aid]
+        for aid in sorted(agents):
+            p = after[0][aid]
+            if kind in ("place", "remove", "move") and exc is None and p != shadow[aid]:
+                fail(f"C08/{name}/{site}/wrong-position", i, f"after {op} agent {aid} has pos {p}, required {shadow[aid]}")
+                shadow[aid] = p
+            holders = [m for m in nodes for x in after[1][m] if x == aid]
+            if holders != ([] if p is None else [p]):
+                fail(f"C08/{name}/pos-contents-disagree", i, f"after {op} agent {aid} has pos {p} but is held by nodes {holders}")
+        everyone = sorted(x for m in nodes for x in after[1][m])
+        if exc is None:
+            if kind == "is_empty" and res != [0 if after[1][op[1]] else 1]:
+                fail(f"C08/{name}/is_cell_empty", i, f"is_cell_empty({op[1]}) = {bool(res[0])}, node holds {after[1][op[1]]}")
+            expl = sorted(x for m in op[1] for x in after[1][m]) if kind == "cell_list" else []
+            if kind == "cell_list" and res != [1 if len(set(expl)) != len(expl) else 0] + expl:
+                fail(f"C08/{name}/cell_list_contents/wrong-agents", i, f"get_cell_list_contents({op[1]}) = {res[1:]}, nodes hold {[after[1][m] for m in op[1]]}")
+            if kind in ("all", "agents") and res != [0] + everyone:
+                fail(f"C08/{name}/{'get_all_cell_contents' if kind == 'all' else 'agents'}/wrong-agents", i, f"{kind} shows {res[1:]} (duplicates: {bool(res[0])}), the nodes hold {everyone}")
+    return {"obs": obs, "failures": failures, "ops_for_model": [list(o) for o in case["ops"]]}
+
+
+def _gen_net(rng):
+    k = rng.randint(1, 6)
+    nodes = rng.sample(range(0, 12), k)
+    edges = [[a, b] for a in nodes for b in nodes if a < b and rng.random() < 0.4]
+    n = rng.randint(1, 5)
+    pos = {a: None for a in range(1, n + 1)}
+    ops = []
+    for _ in range(rng.randint(5, 30)):
+        placed = [a for a in pos if pos[a] is not None]
+        unplaced = [a for a in pos if pos[a] is None]
+        r = rng.random()
+        node = rng.choice(nodes) if rng.random() < 0.9 else rng.randint(0, 14)
+        if (r < 0.25 and unplaced) or not placed:
+            a = rng.choice(unplaced) if unplaced else 1
+            ops.append(["place", a, node])
+            if node in nodes and a in unplaced:
+                pos[a] = node
+        elif r < 0.5:
+            a = rng.choice(placed)
+            ops.append(["move", a, node])
+            pos[a] = node if node in nodes else None
+        elif r < 0.6:
+            a = rng.choice(placed)
+            ops.append(["remove", a])
+            pos[a] = None
+        elif r < 0.7:
+            ops.append(["is_empty", rng.choice(nodes)])
+        elif r < 0.82:
+            ops.append(["cell_list", [rng.choice(nodes) for _ in range(rng.randint(0, 4))]])
+        else:
+            ops.append([rng.choice(["all", "agents"])])
+    return {"cls": "NetworkGrid", "nodes": nodes, "edges": edges, "n": n, "ops": ops}
+
+
 def run_impl(case):
+    if case["cls"] == "NetworkGrid":
+        return _run_net(case)
     import mesa
     from mesa import space
 
@@ -319,8 +530,10 @@ def run_impl(case):
         model = mesa.Model(seed=1)
         rec = _RecRandom(case.get("rseed", 0))
         model.random = rec
-        layer = space.PropertyLayer("elevation", w, h, 0.0) if case.get("layers") else None
-        g = cls(w, h, torus, layer) if layer is not None else cls(w, h, torus)
+        nl = int(case.get("layers") or 0)
+        lay = [space.PropertyLayer(f"layer{j}", w, h, j, dtype=int) for j in range(nl)]
+        g = cls(w, h, torus) if nl == 0 else cls(w, h, torus, lay[0]) if nl == 1 else cls(w, h, torus, lay)
+        lshadow = {j: {c: j for c in cells} for j in range(nl)}      # what the layers must hold (statement: last write)
         agents = {}
         for aid in range(1, n + 1):
             a = mesa.Agent(model)
@@ -352,6 +565,9 @@ def run_impl(case):
         o += [1 if b else 0 for b in s["mask"]]
         return o
 
+    def layers_now():
+        return [int(g.properties[f"layer{j}"].data[c[0], c[1]]) for j in range(nl) for c in cells]
+
     def canon(s):
         return (s["pos"], {c: sorted(v) for c, v in s["raw"].items()}, s["emp"], s["mask"])
 
@@ -379,9 +595,17 @@ def run_impl(case):
             skip = op[1] not in agents or op[2] not in agents
         elif kind == "is_empty":
             skip = not (0 <= op[1] < w and 0 <= op[2] < h)
+        elif kind == "ilist":
+            skip = not op[1]
+        elif kind == "cell_list":
+            skip = not all(0 <= c[0] < w and 0 <= c[1] < h for c in op[1]) or (op[2] and len(op[1]) != 1)
+        elif kind in ("lset", "lget"):
+            skip = not (0 <= op[1] < nl and 0 <= op[2] < w and 0 <= op[3] < h)
+        elif kind == "lfill":
+            skip = not (0 <= op[1] < nl)
         before = snapshot()
         if skip:
-            obs.append([-2, -8] + obs_state(before))
+            obs.append([-2, -8] + obs_state(before) + [-9] + layers_now())
             if kind == "move_to_empty":
                 mop = ["move_to_empty", op[1], False, 0, 0]
             elif kind == "move_one_of":
@@ -439,6 +663,31 @@ def run_impl(case):
                 elif kind == "agents":
                     ids = [a._verif_id for a in g.agents]
                     res = [1 if len(set(ids)) != len(ids) else 0] + sorted(ids)
+                elif kind == "col":
+                    res = [v for content in g[op[1]] for v in _obs_cell(_ids(content))]
+                elif kind == "ilist":
+                    res = [v for content in g[tuple(tuple(c) for c in op[1])] for v in _obs_cell(_ids(content))]
+                elif kind == "slice_y":
+                    res = [v for content in g[op[1], slice(op[2], op[3])] for v in _obs_cell(_ids(content))]
+                elif kind == "slice_x":
+                    res = [v for content in g[slice(op[1], op[2]), op[3]] for v in _obs_cell(_ids(content))]
+                elif kind == "slice_xy":
+                    res = [v for content in g[slice(op[1], op[2]), slice(op[3], op[4])] for v in _obs_cell(_ids(content))]
+                elif kind == "cell_list":
+                    arg = tuple(op[1][0]) if op[2] else [tuple(c) for c in op[1]]
+                    got = g.get_cell_list_contents(arg) if op[3] == "get" else list(g.iter_cell_list_contents(arg))
+                    ids = [a._verif_id for a in got]
+                    res = [1 if len(set(ids)) != len(ids) else 0] + sorted(ids)
+                elif kind == "lset":
+                    g.properties[f"layer{op[1]}"].set_cell((op[2], op[3]), op[4])
+                    lshadow[op[1]][(op[2], op[3])] = op[4]
+                    res = []
+                elif kind == "lfill":
+                    g.properties[f"layer{op[1]}"].set_cells(op[2])
+                    lshadow[op[1]] = {c: op[2] for c in cells}
+                    res = []
+                elif kind == "lget":
+                    res = [int(g.properties[f"layer{op[1]}"].data[op[2], op[3]])]
                 else:
                     raise ValueError(f"unknown op {kind}")
             warned = 1 if any(issubclass(x.category, RuntimeWarning) for x in wl) else 0
@@ -448,7 +697,7 @@ def run_impl(case):
         ekind = _kind_of(exc) if exc is not None else None
         if kind == "move_one_of" and exc is None and not op[2]:
             res = [warned]
-        obs.append(([0] + res if exc is None else [-1, ekind]) + [-8] + obs_state(after))
+        obs.append(([0] + res if exc is None else [-1, ekind]) + [-8] + obs_state(after) + [-9] + layers_now())
         # ---- outcome handed to the model
         if kind == "move_to_empty":
             out = after["pos"][op[1]] if exc is None and after["pos"][op[1]] is not None else (0, 0)
@@ -568,7 +817,7 @@ def run_impl(case):
                     fail(f"C08/{name}/getitem/wrong-contents", i, f"grid[{t[0]}, {t[1]}] shows agents {res[1:]}, cell {tt} holds {raw_after[tt]}")
         # -- rejected / unexpected
         if exc is not None:
-            if expect_reject is None or ekind not in expect_reject:
+            if kind not in FORM_KINDS and (expect_reject is None or ekind not in expect_reject):
                 fail(f"C08/{name}/{site}/unexpected-exception", i, f"{op} raised {type(exc).__name__}: {exc}")
             if kind in MUTATORS and canon(after) != canon(before):
                 changed = [k for k, x, y in zip(("pos", "cell contents", "empties", "empty_mask"), canon(before), canon(after)) if x != y]
@@ -614,6 +863,62 @@ def run_impl(case):
                 fail(f"C08/{name}/readers-disagree", i, f"after {op}: grid[x,y] {via_index}, iteration {via_iter}, coord_iter {via_coord}, agents {via_agents}, cells {raw_after}")
         except Exception as e:  # noqa: BLE001
             fail(f"C08/{name}/readers-disagree", i, f"after {op} a reader raised {type(e).__name__}: {e}")
+        # the property layers never interfere: they hold the last value written, whatever the grid did;
+        # and a layer call leaves pos / contents / empties / mask alone
+        if nl:
+            want_l = [lshadow[j][c] for j in range(nl) for c in cells]
+            if layers_now() != want_l:
+                fail(f"C08/{name}/layers/changed-by-grid-call" if kind not in ("lset", "lfill") else f"C08/{name}/layers/wrong-value", i,
+                     f"after {op} the property layers hold {layers_now()}, required {want_l}")
+                for j in range(nl):
+                    for c in cells:
+                        lshadow[j][c] = int(g.properties[f'layer{j}'].data[c[0], c[1]])
+            if kind in ("lset", "lfill", "lget") and canon(after) != canon(before):
+                fail(f"C08/{name}/layers/grid-changed-by-layer-call", i, f"{op} changed the grid state: pos {before['pos']} -> {after['pos']}")
+        # the indexing forms against the raw cell contents
+        if kind in ("col", "ilist", "slice_y", "slice_x", "slice_xy", "cell_list"):
+            def wrap(c):
+                if 0 <= c[0] < w and 0 <= c[1] < h:
+                    return c
+                return (c[0] % w, c[1] % h) if torus else None
+            want, want_exc = None, None
+            if kind == "col":
+                want_exc = None if -w <= op[1] < w else E_INDEX
+                if want_exc is None:
+                    want = [(op[1] % w, y) for y in range(h)]
+            elif kind == "ilist":
+                ws = [wrap(tuple(c)) for c in op[1]]
+                want_exc = E_OOB if None in ws else None
+                want = None if want_exc else ws
+            elif kind == "slice_y":
+                x0 = wrap((op[1], 0))
+                want_exc = E_OOB if x0 is None else None
+                want = None if want_exc else [(x0[0], y) for y in range(h)[slice(op[2], op[3])]]
+            elif kind == "slice_x":
+                y0 = wrap((0, op[3]))
+                want_exc = E_OOB if y0 is None else None
+                want = None if want_exc else [(x, y0[1]) for x in range(w)[slice(op[1], op[2])]]
+            elif kind == "slice_xy":
+                want = [(x, y) for x in range(w)[slice(op[1], op[2])] for y in range(h)[slice(op[3], op[4])]]
+            form = {"col": "grid[x]", "ilist": "grid[(x1, y1), ...]", "slice_y": "grid[x, a:b]", "slice_x": "grid[a:b, y]",
+                    "slice_xy": "grid[a:b, c:d]", "cell_list": f"{op[3] if kind == 'cell_list' else ''}_cell_list_contents"}[kind]
+            if kind == "cell_list":
+                exp = sorted(x for c in op[1] for x in raw_after[tuple(c)])
+                if exc is not None:
+                    fail(f"C08/{name}/cell_list_contents/unexpected-exception", i, f"{op} raised {type(exc).__name__}: {exc}")
+                elif res != [1 if len(set(exp)) != len(exp) else 0] + exp:
+                    fail(f"C08/{name}/cell_list_contents/wrong-agents", i,
+                         f"{form}({'bare tuple ' if op[2] else ''}{op[1]}) returned agents {res[1:]} (duplicates: {bool(res[0])}), the cells hold {exp}")
+            elif want_exc is not None:
+                expect_reject = {want_exc}
+                if exc is None:
+                    fail(f"C08/{name}/getitem/out-of-range-accepted", i, f"{form} with {op[1:]} was not rejected")
+            elif exc is None:
+                exp = [v for c in want for v in _obs_cell(raw_after[c])]
+                if res != exp:
+                    fail(f"C08/{name}/getitem/wrong-contents", i, f"{form} with {op[1:]} shows {res}, the cells {want} hold {[raw_after[c] for c in want]}")
+            if exc is not None and kind != "cell_list" and (expect_reject is None or ekind not in expect_reject):
+                fail(f"C08/{name}/getitem/unexpected-exception", i, f"{form} with {op[1:]} raised {type(exc).__name__}: {exc}")
         # the explicit reads
         if exc is None:
             if kind == "empties" and res != [_enc(c) for c in truly_empty]:
@@ -714,6 +1019,26 @@ def _coq_op(op):
         out = (op[5], op[6]) if len(op) >= 7 else (0, 0)
         return (f"MoveToOneOf {L.z(op[1])} {L.lst([L.zpair(c) for c in op[2]])} {_SEL.get(op[3], 'SelBad')} "
                 f"{_HE.get(op[4], 'HNone')} {L.zpair(out)}")
+    def oz(v):
+        return "None" if v is None else f"(Some {L.z(v)})"
+    if k == "col":
+        return f"ReadForm (FCol {L.z(op[1])})"
+    if k == "ilist":
+        return f"ReadForm (FList {L.lst([L.zpair(c) for c in op[1]])})"
+    if k == "slice_y":
+        return f"ReadForm (FSliceY {L.z(op[1])} {oz(op[2])} {oz(op[3])})"
+    if k == "slice_x":
+        return f"ReadForm (FSliceX {oz(op[1])} {oz(op[2])} {L.z(op[3])})"
+    if k == "slice_xy":
+        return f"ReadForm (FSliceXY {oz(op[1])} {oz(op[2])} {oz(op[3])} {oz(op[4])})"
+    if k == "cell_list":
+        return f"ReadForm (FCellList {L.lst([L.zpair(c) for c in op[1]])} {L.b(op[2])})"
+    if k == "lset":
+        return f"LayerOp (LSet {L.z(op[1])} {L.zpair((op[2], op[3]))} {L.z(op[4])})"
+    if k == "lfill":
+        return f"LayerOp (LFill {L.z(op[1])} {L.z(op[2])})"
+    if k == "lget":
+        return f"LayerOp (LGet {L.z(op[1])} {L.zpair((op[2], op[3]))})"
     if k == "is_empty":
         return f"IsCellEmpty {L.zpair((op[1], op[2]))}"
     if k == "index":
@@ -724,13 +1049,34 @@ def _coq_op(op):
 
 def coq_case(case):
     ops = case.get("_ops_for_model") or case["ops"]
+    if case["cls"] == "NetworkGrid":
+        return (f"NetCase {{| nk_nodes := {L.zlist(case['nodes'])}; nk_n := {L.z(case['n'])}; "
+                f"nk_ops := {L.lst([_coq_nop(o) for o in ops])} |}}")
     cfg = (f"{{| c_w := {L.z(case['w'])}; c_h := {L.z(case['h'])}; c_torus := {L.b(case['torus'])}; "
            f"c_multi := {L.b('Multi' in case['cls'])} |}}")
-    return f"{{| k_cfg := {cfg}; k_n := {L.z(case['n'])}; k_ops := {L.lst([_coq_op(o) for o in ops])} |}}"
+    return (f"GridCase {{| k_cfg := {cfg}; k_n := {L.z(case['n'])}; k_layers := {L.z(int(case.get('layers') or 0))}; "
+            f"k_ops := {L.lst([_coq_op(o) for o in ops])} |}}")
+
+
+def _coq_nop(op):
+    k = op[0]
+    if k == "place":
+        return f"NPlace {L.z(op[1])} {L.z(op[2])}"
+    if k == "remove":
+        return f"NRemove {L.z(op[1])}"
+    if k == "move":
+        return f"NMove {L.z(op[1])} {L.z(op[2])}"
+    if k == "is_empty":
+        return f"NIsEmpty {L.z(op[1])}"
+    if k == "cell_list":
+        return f"NCellList {L.zlist(op[1])}"
+    return {"all": "NAll", "agents": "NAgents"}[k]
 
 
 def op_kinds(case):
     out = []
+    if case["cls"] == "NetworkGrid":
+        return ["NetworkGrid:" + op[0] for op in case["ops"]]
     for op in case["ops"]:
         k = op[0]
         if k == "move_one_of":
@@ -742,7 +1088,7 @@ def op_kinds(case):
 def nontrivial(case):
     obs = case.get("_obs", [])
     ok_mut = any(op[0] in MUTATORS and o and o[0] == 0 for op, o in zip(case["ops"], obs))
-    read = any(op[0] not in MUTATORS for op in case["ops"])
+    read = any(op[0] not in MUTATORS and op[0] not in ("lset", "lfill") for op in case["ops"])
     return len(case["ops"]) >= 3 and ok_mut and read
 
 
